@@ -499,10 +499,23 @@ func genC06(r *Rand, p *Plan, tier string) {
 				st.Next = 0
 				s.done = true
 			}
+			wrapNext := false
 			if s.seq >= 255 {
 				s.done = true
+				if !deep && r.Chance(40) {
+					// the handler still registers a continuation at 255: the session has used up
+					// its numbers, whatever the client sends next on it must not be answered
+					st.Next = 1
+					wrapNext = true
+				}
 			}
 			cs.Handler = append(cs.Handler, st)
+			if wrapNext {
+				pk2 := *pk
+				pk2.Seq = PickOf(r, uint8(1), 3, 255, 253)
+				cs.Ops = append(cs.Ops, Op{Kind: "send", Pkt: &pk2})
+				cs.Handler = append(cs.Handler, HStep{Reply: smallReply(r, s.typ)})
+			}
 			s.seq += 2
 		}
 		extras := false
@@ -762,6 +775,19 @@ func genC20(r *Rand, p *Plan, tier string) {
 			cs = probeClient(r, i, 1+r.Intn(3), "")
 			bad := *cs.Ops[0].Pkt
 			cs.Ops = append(cs.Ops, Op{Kind: "send", Pkt: &bad}, Op{Kind: "idle"})
+		case 4: // a session that uses up its sequence numbers with a continuation pending, then goes on
+			cs = probeClient(r, i, 0, "")
+			st := uint8(PickOf(r, 251, 253, 255))
+			var ops []Op
+			var hs []HStep
+			for q := int(st); q <= 255; q += 2 {
+				ops = append(ops, Op{Kind: "send", Pkt: &PktSpec{Ver: 0xc0, Type: 1, Seq: uint8(q), Session: 4242, Body: GenBody(r, model.KAuthenCont, false)}})
+				hs = append(hs, HStep{Reply: smallReply(r, 1), Next: 1})
+			}
+			ops = append(ops, Op{Kind: "send", Pkt: &PktSpec{Ver: 0xc0, Type: 1, Seq: PickOf(r, uint8(1), 3, 255), Session: 4242, Body: GenBody(r, model.KAuthenCont, false)}})
+			hs = append(hs, HStep{Reply: smallReply(r, 1)})
+			cs.Ops = append(ops, Op{Kind: PickOf(r, "idle", "close")})
+			cs.Handler = hs
 		default: // completed and abandoned sessions, then close, reset or stay
 			cs = probeClient(r, i, 1+r.Intn(5), PickOf(r, "close", "reset", "idle", "mid-body", "close"))
 		}
